@@ -1,6 +1,6 @@
 (* C10 — validated trees never hit unresolved names or arity errors at run time. Property theorems only. *)
 Require Import ZArith NArith Bool List Arith Lia. Import ListNotations.
-Require Import F64 Dec Types Generic Lang Opt IO OptFacts OptFacts4 ValidFacts GenArity GenStruct OptTab.
+Require Import F64 Dec Types Generic Lang Opt IO OptFacts OptFacts4 ValidFacts GenArity WalkTypes WalkRead GenCheckArms CheckTab.
 
 (* accepted by check_variables_and_functions => execute never fails with UndefinedVariable / FunctionNotFound,
    for every tree and every coherent environment *)
